@@ -127,6 +127,7 @@ type trRequest struct {
 	checked   bool     // return already examined by the oracles
 	annTxids  []uint32 // announce transaction ids seen on the wire for this request
 	answered  map[uint32]bool
+	answeredWell map[uint32]bool // answered by a well-formed announce reply or error packet (the transaction is over)
 }
 
 type trLab struct {
@@ -203,6 +204,10 @@ func (l *trLab) settle() {
 			}
 			if !known {
 				r.annTxids = append(r.annTxids, s.Txid)
+			}
+			if r.answeredWell[s.Txid] {
+				// C15: an announce (with its event) that the tracker has answered is not sent again
+				l.viol("C15.udp.retransmit-after-answer", fmt.Sprintf("request %d: the announce datagram of transaction %#x was sent again after the tracker had answered it with a well-formed reply", s.Req, s.Txid))
 			}
 		default:
 			core.HarnessError("transport lab: unparsable client datagram of %d bytes", s.Len)
@@ -359,6 +364,12 @@ func (l *trLab) apply(op trOp) (injTx uint32, injected bool) {
 		}
 		if op.V != "wrongtxid" {
 			r.answered[tx] = true
+		}
+		if op.V == "ok" || op.V == "erraction" {
+			if r.answeredWell == nil {
+				r.answeredWell = map[uint32]bool{}
+			}
+			r.answeredWell[tx] = true
 		}
 		l.inject(in)
 		return in.Txid, true
@@ -699,6 +710,10 @@ func clipStr(s string, n int) string {
 func (a *trAgg) report(rep *core.Report) {
 	var keys []string
 	for k := range a.Viol {
+		// oracles of C15 (announce discipline) seen in this lab are reported by C15's run of it, and only there
+		if strings.HasPrefix(k, "C15.") != (rep.Prop == "C15") {
+			continue
+		}
 		keys = append(keys, k)
 	}
 	sort.Strings(keys)
@@ -948,4 +963,32 @@ func runComposed(ops []trOp, jitter []float64, viol func(key, desc string), ag *
 		viol("C16.transport.panic."+frameKey(strings.SplitN(l.runPanic, " at ", 2)[1]), "Transport.Run panicked: "+l.runPanic)
 	}
 	return enabled
+}
+
+
+// TestC15Transport: the same transport lab, judged by C15's oracle: an announce the tracker has answered (reply or error
+// packet) is never sent again - a retransmitted 'completed' or 'started' would break "at most once" and the spacing rule.
+func TestC15Transport(t *testing.T) {
+	logger.Disable()
+	if core.IsWorker() {
+		core.WorkerMain(func(job core.Job) json.RawMessage { return trWorker(t, job) })
+		return
+	}
+	rep := core.NewReport("C15", "udp-retransmit", "exploration")
+	depth := 6
+	if core.Thorough() {
+		depth = 8
+	}
+	rep.Rule = fmt.Sprintf("every operation sequence to depth %d of the transport lab of C16 (real udptracker.Transport + UDPTracker.Announce over the in-memory socket, 2 requests; operations: start, cancel, connect replies, announce replies {ok, short, error action, unknown transaction id}, duplicate datagram, +61s, Close); after every operation every datagram the client sent is decoded: an announce datagram whose transaction was already answered by a well-formed reply or error packet must not appear again", depth)
+	rep.Assumptions = []string{"malformed (short) replies do not end a transaction: retransmission after them is legitimate and not judged"}
+	a := trExplore(t, rep, "TestC15Transport", "transport", depth, 2, 2)
+	a.report(rep)
+	rep.Evaluations = a.Execs
+	rep.Distinct = a.Execs
+	rep.Extra["client_datagrams_seen"] = a.Sent
+	rep.Extra["announce_returns_error"] = a.Errs
+	if a.Errs == 0 || a.Sent == 0 {
+		rep.Vacuous("vacuous: no error return / no datagram seen")
+	}
+	rep.Finish()
 }
